@@ -220,6 +220,17 @@ func typeNameTokens(text string) map[string]int {
 		if !(strings.HasPrefix(line, "%") || strings.HasPrefix(line, "@") || strings.HasPrefix(line, "declare ")) {
 			continue
 		}
+		// in a declaration, `%x` after a parameter's type is the name (or number) of
+		// the parameter, not a type: inside the parameter list a type follows `(` or `,`
+		isDecl := strings.HasPrefix(line, "declare ")
+		paramStart := len(line)
+		if isDecl {
+			if at := strings.IndexByte(line, '@'); at >= 0 {
+				if k := declParamListStart(line, at); k >= 0 {
+					paramStart = k
+				}
+			}
+		}
 		// left-to-right scan: %name / %"name" tokens are counted, other quoted
 		// strings (section names, c"..." arrays) and comments are skipped
 		for i := 0; i < len(line); {
@@ -243,7 +254,7 @@ func typeNameTokens(text string) map[string]int {
 				if j > len(line) {
 					j = len(line)
 				}
-				if c == '%' && j > i+1 {
+				if c == '%' && j > i+1 && !(isDecl && i > paramStart && paramName(line, i)) {
 					if n := norm(line[i+1 : j]); defined[n] && (identified[n] || line[0] != '@') {
 						out[n]++
 					}
@@ -261,4 +272,34 @@ func typeNameTokens(text string) map[string]int {
 		}
 	}
 	return out
+}
+
+// declParamListStart returns the index of the `(` that opens the parameter list
+// of the function named at line[at] (`@name` or `@"name"`), or -1.
+func declParamListStart(line string, at int) int {
+	j := at + 1
+	if j < len(line) && line[j] == '"' {
+		j++
+		for j < len(line) && line[j] != '"' {
+			j++
+		}
+		j++
+	}
+	for j < len(line) && line[j] != '(' {
+		j++
+	}
+	if j >= len(line) {
+		return -1
+	}
+	return j
+}
+
+// paramName reports whether the `%` token at line[i], inside a parameter list,
+// is a parameter name: it is one unless it directly follows `(` or `,`.
+func paramName(line string, i int) bool {
+	k := i - 1
+	for k >= 0 && (line[k] == ' ' || line[k] == '\t') {
+		k--
+	}
+	return k >= 0 && line[k] != '(' && line[k] != ','
 }
